@@ -41,7 +41,7 @@ func Check(src string) string {
 		return "type: " + err.Error()
 	}
 	first := ""
-	info := &types.Info{Types: map[ast.Expr]types.TypeAndValue{}, Defs: map[*ast.Ident]types.Object{}}
+	info := &types.Info{Types: map[ast.Expr]types.TypeAndValue{}, Defs: map[*ast.Ident]types.Object{}, Uses: map[*ast.Ident]types.Object{}}
 	conf := types.Config{
 		Importer: imp,
 		Sizes:    &types.StdSizes{WordSize: 4, MaxAlign: 4},
@@ -71,8 +71,13 @@ func subset(f *ast.File, info *types.Info) (why string) {
 		}
 		return false
 	}
-	for id := range info.Defs {
+	for id, obj := range info.Defs {
 		if id.Name != "_" && types.Universe.Lookup(id.Name) != nil {
+			// package-level functions named like the builtin functions println, print, min, max are part of what the
+			// generators write (the package scope shadows the universe scope); nothing else is
+			if fn, ok := obj.(*types.Func); ok && fn.Parent() == fn.Pkg().Scope() && (id.Name == "println" || id.Name == "print" || id.Name == "min" || id.Name == "max") {
+				continue
+			}
 			return "a predeclared name is redeclared: " + id.Name
 		}
 	}
@@ -253,7 +258,7 @@ func subset(f *ast.File, info *types.Info) (why string) {
 			if id, ok := x.Fun.(*ast.Ident); ok {
 				switch id.Name {
 				case "new", "cap", "complex", "real", "imag", "recover", "close", "clear", "min", "max", "print":
-					if types.Universe.Lookup(id.Name) != nil {
+					if _, isBuiltin := info.Uses[id].(*types.Builtin); isBuiltin {
 						bad("builtin %s", id.Name)
 					}
 				}
